@@ -153,7 +153,7 @@ Res(t) ==
 \* q = status of every field a @requires needs ("v" a well-formed value, "bad" a value of the wrong
 \* JSON type, "null" an explicit null, "absent"). "<T>:<j><s>": the j-th required field of type T
 \* is bad / null / absent, everything else well-formed.
-Kind(name) ==
+KindDef(name) ==
   CASE name = "S" -> [t |-> "S", k |-> [id |-> "v"], q |-> << >>]
     [] name = "Smiss" -> [t |-> "S", k |-> << >>, q |-> << >>]
     [] name = "Snull" -> [t |-> "S", k |-> [id |-> "null"], q |-> << >>]
@@ -260,6 +260,9 @@ AllKinds == {"S", "Smiss", "Snull", "Ka", "Kbc", "Kboth", "Kanull", "Kb",
              "C", "C:vn", "C:nv", "C:nn", "C:va", "C:av", "C:na", "Cm", "Cm:vn", "Cm:nv", "Cm:nn", "Cm:va",
              "Cm:av", "Cm:na", "N2", "N2:vn", "N2:nv", "N2:nn", "N2:va", "N2:av", "N2:na", "N2:bad", "Kbcn", "Kbnc", "Kbncn", "Kanbcn", "K2", "K2:cn", "K2:cn-", "K2:bncn", "K2:ca",
              "S:kb", "Mid:kb", "C:vb", "Cm:vb", "Cm:bv"}
+\* (a constant table: TLC evaluates it once, instead of scanning the CASE at every use)
+KindTab == [kn \in AllKinds |-> KindDef(kn)]
+Kind(name) == KindTab[name]
 ReqKinds == {kn \in AllKinds : Kind(kn).q # << >>}
 
 Null == [r |-> "", i |-> 0, w |-> 0]
